@@ -627,6 +627,9 @@ def run_frozen(case):
     news = [('updated(dict)', lambda: fd.updated(upd), exp_upd),
             ('updated(pairs)', lambda: fd.updated(list(upd.items())), exp_upd),
             ('updated(kw)', lambda: fd.updated(zz=1), dict(snapshot, zz=1)),
+            # positional and keyword arguments naming the same key: like dict.update, the keyword wins
+            ('updated(dict+kw)', lambda: fd.updated({'a': 'pos', 'b': 'pos'}, a='kw', zz=1), dict(snapshot, a='kw', b='pos', zz=1)),
+            ('updated(pairs+kw)', lambda: fd.updated(iter([('a', 'pos'), ('a', 'pos2')]), a='kw'), dict(snapshot, a='kw')),
             ('updated()', lambda: fd.updated(), snapshot),
             ('copy.copy', lambda: copy.copy(fd), snapshot),
             ('copy.deepcopy', lambda: copy.deepcopy(fd), snapshot),
